@@ -226,3 +226,85 @@ def sane_schema(rng, depth=2, draft4=True):
 def random_sane(rng, n, depth=2):
     for _ in range(n):
         yield sane_schema(rng, depth=rng.choice([1, depth, depth]), draft4=rng.random() < 0.6)
+
+
+# ---- operations for builder._iter_coverage_cases -----------------------------------------------------------------------
+
+PARAM_POOL = [
+    # (location, name, required, schema)
+    ("query", "q", True, {"type": "integer", "minimum": 1, "maximum": 3}),
+    ("query", "r", False, {"type": "boolean"}),
+    ("query", "s", False, {"type": "string", "minLength": 2}),
+    ("query", "n", True, {"minimum": 5}),                    # no positive value at all
+    ("query", "e", False, {}),                               # no value at all
+    ("header", "X-A", True, {"type": "string", "minLength": 2}),
+    ("header", "X-B", False, {"type": "integer"}),
+    ("cookie", "c", True, {"type": "string", "enum": ["a", "b"]}),
+    ("cookie", "d", False, {"type": "integer", "minimum": 0}),
+    ("path", "id", True, {"type": "integer", "minimum": 1}),
+    ("query", "arr", False, {"type": "array", "items": {"type": "integer"}}),
+    ("query", "t", False, {"type": "string", "default": "dflt"}),
+]
+BODY_POOL = [
+    None,
+    [("application/json", {"type": "integer", "minimum": 0, "maximum": 3})],
+    [("application/json", {"type": "object", "properties": {"a": {"type": "integer"}, "b": {"type": "string"}},
+                           "required": ["a"]})],
+    [("application/json", {"type": "string", "minLength": 1}), ("text/plain", {"type": "string", "maxLength": 2})],
+    [("application/json", {"minimum": 5})],                  # first body value is negative
+    [("application/json", {})],                              # a body alternative without values
+]
+METHOD_SETS = [["post"], ["get", "post"], ["post", "put", "delete", "patch", "get", "options", "trace"]]
+
+
+def build_operation_doc(params, body, methods, method="post"):
+    has_path = any(p[0] == "path" for p in params)
+    path = "/p/{id}" if has_path else "/p"
+    ps = []
+    for loc, name, req, schema in params:
+        d = {"name": name, "in": loc, "schema": schema}
+        if req or loc == "path":
+            d["required"] = True
+        ps.append(d)
+    op = {"parameters": ps, "responses": {"200": {"description": "OK"}}}
+    if body is not None:
+        op["requestBody"] = {"required": True, "content": {mt: {"schema": sch} for mt, sch in body}}
+    item = {}
+    for m in methods:
+        if m == method:
+            item[m] = op
+        else:
+            o = {"responses": {"200": {"description": "OK"}}}
+            if has_path:
+                o["parameters"] = [{"name": "id", "in": "path", "required": True, "schema": {"type": "integer"}}]
+            item[m] = o
+    return {"openapi": "3.0.2", "info": {"title": "t", "version": "1"}, "paths": {path: item}}, path, method
+
+
+def operation_grid(thorough):
+    """all parameter sets of size <= 2 (3 when thorough) x bodies x documented-method sets"""
+    import itertools as it
+    sizes = (0, 1, 2, 3) if thorough else (0, 1, 2)
+    for k in sizes:
+        for chosen in it.combinations(range(len(PARAM_POOL)), k):
+            ps = [PARAM_POOL[i] for i in chosen]
+            for bi, body in enumerate(BODY_POOL):
+                ms = METHOD_SETS[(sum(chosen) + bi) % len(METHOD_SETS)]
+                yield ps, body, ms
+
+
+def random_operation(rng):
+    k = rng.randint(0, 5)
+    chosen = sorted(rng.sample(range(len(PARAM_POOL)), k))
+    ps = []
+    for i in chosen:
+        loc, name, req, schema = PARAM_POOL[i]
+        if rng.random() < 0.3 and loc != "path":
+            schema = sane_schema(rng, 1, True)
+        if rng.random() < 0.2 and loc != "path":
+            req = not req
+        ps.append((loc, name, req, schema))
+    body = rng.choice(BODY_POOL)
+    if body is not None and rng.random() < 0.4:
+        body = [("application/json", sane_schema(rng, 2, True))]
+    return ps, body, rng.choice(METHOD_SETS)
